@@ -1443,3 +1443,32 @@ def m8(facts, tier):
                   f"verify_backward_compatible runs on definitions taken from `{ra}` / `{rb}`: the two sides' NATIVE definitions are compared "
                   f"although they legitimately differ between versions (evolved argument or output types), so peers of different versions "
                   f"are refused - or, for swapped roles, incompatible ones accepted"))
+
+
+@rule("N8", ["C15", "C10"], floor=10, doc="generated get_definition(version): every nested interface (trait-object, closure and future arguments) is "
+      "described at the version that was asked for - the nested get_definition receives the function's own `version` parameter, not "
+      "a constant - so the definition recorded for, or negotiated at, an older version does not carry a newer nested interface")
+def n8(facts, tier):
+    for fid, f in sorted(facts.fns.items()):
+        if f["crate"] != "sfcorpus" or not fid.endswith("as savefile_abi::AbiExportable>::get_definition") or not f.get("body"):
+            continue
+        ps = [p["pat"]["v"] for p in f["params"] if p.get("pat") and p["pat"].get("k") == "Bind"]
+        if not ps:
+            continue
+        ver = ps[0]
+        m = re.match(r"<\(dyn ([^ ]+)", fid)
+        tname = m.group(1) if m else fid
+        n = 0
+        for x in walk(f["body"]):
+            if x.get("k") == "Call" and (callee(x) or "").endswith("AbiExportable::get_definition") and x.get("args"):
+                n += 1
+                a = peel_block(peel(x["args"][0]))
+                ok = a.get("k") == "Var" and a["v"] == ver
+                nested = (x.get("self_ty") or "?")
+                nested = re.sub(r"^\(dyn |\s*\+.*$|\)$", "", nested)
+                key = f"{tname}:nested#{n}"
+                yield ob(["C15", "C10"], "N8", key, "pass" if ok else "violation", where(f, x),
+                         f"{tname}: nested interface {nested} described at the requested version" if ok else
+                         f"{tname}::get_definition(version) describes its nested interface `{nested}` at a fixed version "
+                         f"({a.get('int', a.get('k'))}) instead of `version`: the definition of an older version carries the newest nested "
+                         f"interface, so the ledger rejects a compatible evolution (and negotiation compares the wrong nested definitions)")
